@@ -160,6 +160,8 @@ def sources():
     out = []
     for m, h, i, t in itertools.product(range(len(METAS)), range(len(HEADS)), range(len(IMAGES)), range(len(TAILS))):
         out.append(METAS[m] + HEADS[h] + IMAGES[i] + TAILS[t])
+    # tiny members: sources of 0..5 bytes (TextBundle stores the source itself) and assets of 2, 3 and 10 bytes
+    out += [b"", b"a", b"ab", b"ab\n", b"a\n\n", b"abcd", b"abcd\n", b"\n", b"CSS: tiny.css\n\nx ![t](t3.png) ![u](t10.png)\n", b"![t](t3.png)\n"]
     return out
 
 def make_case(srcs):
